@@ -112,6 +112,11 @@ def gen_scenario(rng, idx):
             sc["inj"].append({"at": rng.randint(-20, 900), "alias": "other%d.%s" % (rng.randint(0, 3), type_), "ttl": 4500})
     if kind == "peer":
         sc["peer_chain"] = rng.choice([1, 1, 2, 3])
+    if rng.random() < 0.4:
+        # a peer resolves the service while it is being announced (what ServiceInfo.async_request sends: SRV/TXT and A/AAAA questions
+        # in one packet), QM, QU or legacy unicast; offsets are relative to the completion of the registration
+        sc["qann"] = [{"off": rng.choice([1, 1, 50, 100, 224, 226, 300, 449, 451, 600]), "kind": rng.choice(["resolve", "resolve", "srv+a", "ptr+srv+aaaa", "srv"]),
+                       "mode": rng.choice(["qm", "qm", "qu", "legacy"])} for _ in range(rng.choice([1, 1, 2, 3]))]
     if kind == "reuse":
         # the same ServiceInfo object: registered, unregistered, then -- while a peer's pointer for the old name is cached --
         # registered again; mostly hosts with a single address family (the NSEC record is built from the instance name)
@@ -287,10 +292,32 @@ def run_scenario(sc):
         info = make_info(sc)
         results = []
 
+        nq = [0]
+
+        def resolution_query(info, q):
+            from zeroconf import DNSOutgoing, DNSQuestion, const
+
+            nq[0] += 1
+            out = DNSOutgoing(const._FLAGS_QR_QUERY, id_=nq[0] if q["mode"] == "legacy" else 0)
+            cls = const._CLASS_IN | (const._CLASS_UNIQUE if q["mode"] == "qu" else 0)
+            k = q["kind"]
+            if k.startswith("ptr"):
+                out.add_question(DNSQuestion(info.type, const._TYPE_PTR, cls))
+            out.add_question(DNSQuestion(info.name, const._TYPE_SRV, cls))
+            if k == "resolve":
+                out.add_question(DNSQuestion(info.name, const._TYPE_TXT, cls))
+            if k in ("resolve", "srv+a"):
+                out.add_question(DNSQuestion(info.server, const._TYPE_A, cls))
+            if k in ("resolve", "ptr+srv+aaaa"):
+                out.add_question(DNSQuestion(info.server, const._TYPE_AAAA, cls))
+            a.inject(out.packets()[0], "10.0.0.%d" % (20 + nq[0]), 40000 if q["mode"] == "legacy" else 5353)
+
         async def scenario_register(info):
             try:
                 task = await za.async_register_service(info, ttl=sc["ttl_arg"], allow_name_change=sc["allow"])
                 results.append(("ok", info.name))
+                for q in sc.get("qann", []):
+                    sim.loop.call_later(q["off"] / 1000.0, resolution_query, info, q)
                 await task
             except Exception as ex:  # noqa: BLE001
                 results.append((type(ex).__name__, info.name))
